@@ -59,6 +59,11 @@ def Parsed.isZero : Parsed → Bool
   | .num n => n == 0
   | .ptr _ => false
 
+/-- `.zero` and `.num 0` are the same eight bytes: canonical representative -/
+def Parsed.norm : Parsed → Parsed
+  | .num n => if n == 0 then .zero else .num n
+  | p => p
+
 structure Base where
   name : Bytes
   present : Bool := false
@@ -112,37 +117,41 @@ structure StrRes where
   warn : Bool
   deriving Repr, DecidableEq
 
+/-- `memcmp(&cnode->parsed, &newval, sizeof(newval))` is zero, for a typed `newval = n` -/
+def typedSame (parsed : Parsed) (n : Nat) : Bool :=
+  match parsed with
+  | .zero => n == 0
+  | .num m => m == n
+  | .ptr _ => false
+
+/-- `conf_parse_string_value` once `cnode->value` is known to be non-NULL -/
+def strParseSome (sv : Bool) (v : Bytes) (sub : SubTy) (parsed : Parsed) (hook : Bool) : Except Fault StrRes :=
+  match sub with
+  | .plain =>
+    match parsed with
+    | .zero => .ok ⟨some v, .ptr v, hook, false⟩
+    | .ptr b => .ok ⟨some v, .ptr v, (v != b) && hook, false⟩
+    | .num n =>
+      if n == 0 then .ok ⟨some v, .ptr v, hook, false⟩
+      else .error (.useAfterFree "parsed.p_string holds a number (subtype changed)")
+  | .float => .error (.assertFail "float subtype is not modelled")
+  | _ =>
+    if !(parseTyped sv sub v).2 then .ok ⟨some v, parsed, false, true⟩
+    else if typedSame parsed (parseTyped sv sub v).1 then .ok ⟨some v, parsed, false, false⟩
+    else .ok ⟨some v, .num (parseTyped sv sub v).1, hook, false⟩
+
+/-- `if (!cnode->value) cnode->value = xstrdup(cnode->def_value);` -/
+def orElse' (a b : Option Bytes) : Option Bytes := match a with | some v => some v | none => b
+
 /-- `conf_parse_string_value(cnode)`; `hook` = a hook is installed.  `strictVol`: see
     `parseVolume`. -/
 def strParse (V : Variant) (strictVol : Bool) (value dflt : Option Bytes) (sub : SubTy)
     (parsed : Parsed) (hook : Bool) : Except Fault StrRes :=
-  let orig := value
-  let value := match value with | some v => some v | none => dflt
-  match value with
+  match orElse' value dflt with
   | none =>
     -- pinned: `if (orig_value && hook)`, and `orig_value` is `cnode->value`, NULL here
-    let fire := if V.f13 then !parsed.isZero && hook else orig.isSome && hook
-    .ok ⟨none, .zero, fire, false⟩
-  | some v =>
-    match sub with
-    | .plain =>
-      match parsed with
-      | .zero => .ok ⟨some v, .ptr v, hook, false⟩
-      | .ptr b => .ok ⟨some v, .ptr v, (v != b) && hook, false⟩
-      | .num n =>
-        if n == 0 then .ok ⟨some v, .ptr v, hook, false⟩
-        else .error (.useAfterFree "parsed.p_string holds a number (subtype changed)")
-    | .float => .error (.assertFail "float subtype is not modelled")
-    | _ =>
-      let (n, ok) := parseTyped strictVol sub v
-      if !ok then .ok ⟨some v, parsed, false, true⟩
-      else
-        let same := match parsed with
-          | .zero => n == 0
-          | .num m => m == n
-          | .ptr _ => false
-        if same then .ok ⟨some v, parsed, false, false⟩
-        else .ok ⟨some v, .num n, hook, false⟩
+    .ok ⟨none, .zero, (if V.f13 then !parsed.isZero else value.isSome) && hook, false⟩
+  | some v => strParseSome strictVol v sub parsed hook
 
 /-! ### sorted child lists -/
 
@@ -214,18 +223,73 @@ def setList (value : List Bytes) (cap : Bool) (new : List Bytes) : List Bytes ×
 
 /-! ### conf_replace_value -/
 
+/-- `!a != !b || (a && b && strcasecmp(a, b))`: the strings are read only when both exist -/
+def ciPart (h : Heap) (site : String) (a b : Option OStr) : Except Fault Bool :=
+  if a.isSome != b.isSome then .ok true
+  else match a, b with
+    | some x, some y => do
+      let xv ← h.read site x
+      let yv ← h.read site y
+      .ok (Bytes.strcasecmp xv yv != 0)
+    | _, _ => .ok false
+
 /-- the comparison of `conf_replace_value`'s CONF_INADDR case, with C's short-circuit order -/
 def inaddrChanged (h : Heap) (host ohost svc osvc : Option OStr) : Except Fault Bool := do
-  let part (a b : Option OStr) (site : String) : Except Fault Bool :=
-    if a.isSome != b.isSome then .ok true
-    else match a, b with
-      | some x, some y => do
-        let xv ← h.read site x
-        let yv ← h.read site y
-        .ok (Bytes.strcasecmp xv yv != 0)
-      | _, _ => .ok false
-  if ← part host ohost "strcasecmp(target->hostname, orig_hostname)" then .ok true
-  else part svc osvc "strcasecmp(target->service, orig_service)"
+  if ← ciPart h "strcasecmp(target->hostname, orig_hostname)" host ohost then .ok true
+  else ciPart h "strcasecmp(target->service, orig_service)" svc osvc
+
+/-- `target->x = source->x; if (!target->x) target->x = xstrdup(target->def_x);` -/
+def pickOrDup (x : Option OStr) (d : Option Bytes) (hp : Heap) : Option OStr × Heap :=
+  match x with
+  | some x => (some x, hp)
+  | none => hp.dupOpt d
+
+/-- the end of `conf_replace_value`: `target_->present = source_ != NULL`, and an absent
+    node that nobody registered leaves its parent's set (`conf_object_cleanup` frees it) -/
+def finishNode (n : Node) (present : Bool) (e : Eff) : Except Fault (Option Node × Eff) :=
+  let b := { n.base with present := present }
+  if !b.present && !b.specified then do
+    let h ← freeNode n e.heap
+    .ok (none, { e with heap := h })
+  else .ok (some (n.setBase b), e)
+
+/-- CONF_INADDR case: `src` = the scratch node's (hostname, service) pointers -/
+def updInaddr (V : Variant) (path : List Bytes) (b : Base) (oh os : Option OStr) (dh ds : Option Bytes)
+    (src : Option (Option OStr × Option OStr)) (e : Eff) : Except Fault (Node × Eff) := do
+  -- pointers copied; the pinned text leaves them in the scratch node as well
+  let (sh, ss) := match src with | some x => x | none => (none, none)
+  let e := if V.f9 then e else
+    { e with residue := e.residue ++ (sh.toList.map (·.tok)) ++ (ss.toList.map (·.tok)) }
+  let (host, hp) := pickOrDup sh dh e.heap
+  let (svc, hp) := pickOrDup ss ds hp
+  let changed ← inaddrChanged hp host oh svc os
+  let e := { e with heap := hp }.fire (changed && b.hook) 1 path
+  let hp ← e.heap.freeOpt "xfree(orig_hostname)" oh
+  let hp ← hp.freeOpt "xfree(orig_service)" os
+  .ok (.inaddr b host svc dh ds, { e with heap := hp })
+
+/-- the CONF_STRING, CONF_INADDR and CONF_STRING_LIST cases of `conf_replace_value`
+    (everything but the final `present` update) -/
+def replaceLeaf (V : Variant) (sv : Bool) (path : List Bytes) (t : Node) (s : Option Node) (e : Eff) :
+    Except Fault (Node × Eff) :=
+  match t, s with
+  | .str b _ d sub parsed, some (.str _ sval _ _ _) => do
+    let r ← strParse V sv sval d sub parsed b.hook
+    let e := { e with warns := e.warns + (if r.warn then 1 else 0) }
+    .ok (.str b r.value d sub r.parsed, e.fire r.fire 0 path)
+  | .str b _ d sub parsed, none => do
+    let r ← strParse V sv none d sub parsed b.hook
+    let e := { e with warns := e.warns + (if r.warn then 1 else 0) }
+    .ok (.str b r.value d sub r.parsed, e.fire r.fire 0 path)
+  | .inaddr b oh os dh ds, some (.inaddr _ sh ss _ _) => updInaddr V path b oh os dh ds (some (sh, ss)) e
+  | .inaddr b oh os dh ds, none => updInaddr V path b oh os dh ds none e
+  | .list b v cap d, some (.list _ sval _ _) =>
+    let (v', cap', ch) := setList v cap sval
+    .ok (.list b v' cap' d, e.fire (ch && b.hook) 2 path)
+  | .list b v cap d, none =>
+    let (v', cap', ch) := setList v cap d
+    .ok (.list b v' cap' d, e.fire (ch && b.hook) 2 path)
+  | _, _ => .error (.assertFail "conf_replace_value: type mismatch (unreachable from conf_read)")
 
 mutual
 /-- `conf_replace_value(target, source)`; `none` result = the target left its parent's
@@ -233,58 +297,20 @@ mutual
 def replaceNode (V : Variant) (sv : Bool) : Nat → List Bytes → Node → Option Node → Eff →
     Except Fault (Option Node × Eff)
   | 0, _, _, _, _ => .error (.assertFail "merge fuel")
-  | fuel + 1, pfx, t, s, e => do
-    let path := pfx ++ [t.name]
-    let finish (n : Node) (e : Eff) : Except Fault (Option Node × Eff) :=
-      let b := { n.base with present := s.isSome }
-      if !b.present && !b.specified then do
-        -- set_remove(..., 0): conf_object_cleanup
-        let h ← freeNode n e.heap
-        .ok (none, { e with heap := h })
-      else .ok (some (n.setBase b), e)
+  | fuel + 1, pfx, t, s, e =>
     match t, s with
-    | .str b _ d sub parsed, some (.str _ sval _ _ _) => do
-      let r ← strParse V sv sval d sub parsed b.hook
-      let e := { e with warns := e.warns + (if r.warn then 1 else 0) }
-      finish (.str b r.value d sub r.parsed) (e.fire r.fire 0 path)
-    | .str b _ d sub parsed, none => do
-      let r ← strParse V sv none d sub parsed b.hook
-      let e := { e with warns := e.warns + (if r.warn then 1 else 0) }
-      finish (.str b r.value d sub r.parsed) (e.fire r.fire 0 path)
-    | .inaddr b oh os dh ds, some (.inaddr _ sh ss _ _) => do
-      -- pointers copied; the pinned text leaves them in the scratch node as well
-      let e := if V.f9 then e else
-        { e with residue := e.residue ++ (sh.toList.map (·.tok)) ++ (ss.toList.map (·.tok)) }
-      let (host, hp) := match sh with | some x => (some x, e.heap) | none => e.heap.dupOpt dh
-      let (svc, hp) := match ss with | some x => (some x, hp) | none => hp.dupOpt ds
-      let changed ← inaddrChanged hp host oh svc os
-      let e := { e with heap := hp }.fire (changed && b.hook) 1 path
-      let hp ← e.heap.freeOpt "xfree(orig_hostname)" oh
-      let hp ← hp.freeOpt "xfree(orig_service)" os
-      finish (.inaddr b host svc dh ds) { e with heap := hp }
-    | .inaddr b oh os dh ds, none => do
-      let (host, hp) := e.heap.dupOpt dh
-      let (svc, hp) := hp.dupOpt ds
-      let changed ← inaddrChanged hp host oh svc os
-      let e := { e with heap := hp }.fire (changed && b.hook) 1 path
-      let hp ← e.heap.freeOpt "xfree(orig_hostname)" oh
-      let hp ← hp.freeOpt "xfree(orig_service)" os
-      finish (.inaddr b host svc dh ds) { e with heap := hp }
-    | .list b v cap d, some (.list _ sval _ _) =>
-      let (v', cap', ch) := setList v cap sval
-      finish (.list b v' cap' d) (e.fire (ch && b.hook) 2 path)
-    | .list b v cap d, none =>
-      let (v', cap', ch) := setList v cap d
-      finish (.list b v' cap' d) (e.fire (ch && b.hook) 2 path)
     | .obj b kids, some (.obj _ skids) => do
-      let (kids', m, e) ← walk V sv fuel path kids skids e
-      finish (.obj b kids') (e.fire (m && b.hook) 3 path)
+      let (kids', m, e) ← walk V sv fuel (pfx ++ [b.name]) kids skids e
+      finishNode (.obj b kids') true (e.fire (m && b.hook) 3 (pfx ++ [b.name]))
     | .obj b kids, none =>
       if b.present then do
-        let (kids', m, e) ← revertAll V sv fuel path kids e
-        finish (.obj b kids') (e.fire (m && b.hook) 3 path)
-      else finish (.obj b kids) e
-    | _, some _ => .error (.assertFail "conf_replace_value: type mismatch (unreachable from conf_read)")
+        let (kids', m, e) ← revertAll V sv fuel (pfx ++ [b.name]) kids e
+        finishNode (.obj b kids') false (e.fire (m && b.hook) 3 (pfx ++ [b.name]))
+      else finishNode (.obj b kids) false e
+    | .obj _ _, some _ => .error (.assertFail "conf_replace_value: type mismatch (unreachable from conf_read)")
+    | t, s => do
+      let (n, e) ← replaceLeaf V sv (pfx ++ [t.name]) t s e
+      finishNode n s.isSome e
 
 /-- the two-pointer loop of the CONF_OBJECT case -/
 def walk (V : Variant) (sv : Bool) : Nat → List Bytes → List Node → List Node → Eff →
